@@ -144,3 +144,57 @@ def check(run, prog, tier):
     okid = bool(idw) and all("get_id_number" in r for fn, r in idw)
     run.ob("C07-c", "id-writers", okid, "id_number writers: %s" % idw, None, None, None, what="program ids not from get_id_number(): %s" % idw)
     run.ob("C07-c", "cache-writers", cachew <= {"apply_low", "clear_apply_cache"}, "cache written by %s" % sorted(cachew), al.file, None, None, what="apply cache written by %s" % sorted(cachew))
+
+    # ---- C07-d  the origin is handed over through a global that apply_low consumes and clears
+    import callgraph
+    from dataflow import solve
+    run.rule("C07-d", "every store to the global call_origin is consumed by the next apply_low on all paths: no call that can run LPC code (which itself consumes/clears the global, e.g. loading the target) and no function exit lies between the store and apply_low", 4)
+    cg = callgraph.CallGraph(prog)
+    eff = callgraph.Effects(cg)
+    consumers = {"apply_low"}
+    returning_lpc = cg.reaches(callgraph.LPC_SEEDS | {"<unknown>"}, barriers={"fatal"} | callgraph.RAISE_SEEDS)
+    stores = 0
+    for f in sorted(prog.functions(), key=lambda x: (x.file, x.line)):
+        if f.name == "apply_low":
+            continue
+        sites = [(b, i, n) for b, i, n in f.nodes() if n.get("k") == "Asg" and strip(n["L"]).get("k") == "Ref" and strip(n["L"]).get("n") == "call_origin" and strip(n["L"]).get("d") in ("global", "static")]
+        if not sites:
+            continue
+        run.saw(f)
+        bad = {}
+
+        def transfer(blk, st, record=False):
+            for i, e in enumerate(blk.el):
+                for n in walk(e, True):
+                    k = n.get("k")
+                    if k == "Call":
+                        if n.get("fn") in consumers:
+                            st = frozenset()
+                        elif st:
+                            # a call that only reaches LPC by raising an error never returns here
+                            ret_lpc = cg.callees_of_call(f, n) & returning_lpc
+                            if ret_lpc and record:
+                                for s in st:
+                                    bad.setdefault(s, []).append("%s() at line %s can run LPC code (and with it a nested apply_low that clears call_origin) before the origin is consumed" % (n.get("fn") or "(*)", n.get("l")))
+                    elif k == "Asg" and strip(n["L"]).get("k") == "Ref" and strip(n["L"]).get("n") == "call_origin":
+                        st = frozenset([n.get("l")])
+                    elif k == "Return" and st and record:
+                        for s in st:
+                            bad.setdefault(s, []).append("return at line %s leaves the origin set for whatever apply_low runs next" % n.get("l"))
+            return st
+        ins = solve(f, frozenset(), lambda b, s: transfer(b, s), None, lambda a, b: a | b)
+        for bid in sorted(f.reachable(), reverse=True):
+            if bid in ins:
+                out = transfer(f.blocks[bid], ins[bid], True)
+                if out and f.exit in [s for s in f.blocks[bid].succ if s is not None] and not any(n.get("k") == "Return" for e in f.blocks[bid].el for n in walk(e, True)):
+                    for s in out:
+                        bad.setdefault(s, []).append("the function can end with the origin still set")
+        ordn = 0
+        for b, i, n in sorted(sites, key=lambda x: x[2].get("l") or 0):
+            stores += 1
+            inst = "origin:%s:%s:%d" % (rel(f.file), f.name, ordn)
+            ordn += 1
+            why = bad.get(n.get("l"))
+            run.ob("C07-d", inst, not why, "call_origin = %s is consumed by the next apply_low with nothing in between" % show(n["R"]) if not why else "call_origin = %s: %s" % (show(n["R"]), why[0]), f.file, n.get("l"), f.name,
+                   what="%s sets call_origin but %s" % (f.name, why[0] if why else ""))
+    run.need(stores >= 4, "stores to call_origin (found %d)" % stores)
